@@ -181,6 +181,8 @@ def gen_fasta(rng, tier="quick", kind="dna", geometry=None, nrec=None, maxlen=No
     if geometry is None:
         geometry = "const" if rng.random() < 0.6 else "ragged"
     eol = "\r\n" if rng.random() < 0.3 else "\n"
+    if geometry is not None and geometry == "cr":
+        eol, geometry = "\r", "const"          # bare carriage returns (old Mac files): ends a header line, ignored inside the data
     final_nl = rng.random() < 0.75
     if spaces is None:
         spaces = rng.random() < 0.2
@@ -201,6 +203,8 @@ def gen_fasta(rng, tier="quick", kind="dna", geometry=None, nrec=None, maxlen=No
                 L = 0
             elif r < 0.12:    # allocation boundaries of the residue array (eslSQ_SEQCHUNK = 256)
                 L = rng.choice([253, 254, 255, 256, 257, 258, 511, 512, 513])
+            elif r < 0.17:    # line-width boundaries of the FASTA writer (60 columns)
+                L = rng.choice([59, 60, 61, 119, 120, 121, 180])
             elif r < 0.75:
                 L = rng.randrange(1, 120)
             elif r < 0.93:
@@ -803,6 +807,13 @@ def _monitor_c04(case, out):
         idx = 0
         complete = False
         for op, d, line in items:
+            if op == "pos":
+                if d.get("off") == "0" and line.startswith("ok"):
+                    idx = 0                  # rewound: a second pass over the same records
+                    complete = False
+                else:
+                    break
+                continue
             if op in ("read", "readinfo", "readseq"):
                 st = line.split()[0] if line else ""
                 if st == "eof":
@@ -1088,4 +1099,110 @@ def monitor_afetch(case, out):
                 return Failure("monitor", "alignment fetch of key %r failed: %s" % (unhx(k), status))
             if (int(h), int(n)) not in [tuple(e) for e in exp]:
                 return Failure("monitor", "alignment fetched for key %r (%s bytes) is not the alignment of that name/accession (%d bytes)" % (unhx(k), n, exp[0][1]))
+    return None
+
+
+# ------------------------------------------------------------------------------------------------
+# alignment files read as sequences (C02): harness + monitor only
+# ------------------------------------------------------------------------------------------------
+def gen_msa_as_seqs(rng):
+    """A small Stockholm file (1..4 alignments) with per-sequence and consensus annotation; returns (bytes, rows) where rows is the
+    list of (name, dealigned residues) in reading order."""
+    out, rows = [], []
+    used = set()
+    for a in range(rng.choice([1, 1, 2, 4])):
+        nseq = rng.randrange(1, 7)
+        alen = rng.choice([1, 5, 30, 60, 255, 256, 257, rng.randrange(1, 120)])
+        names = []
+        for j in range(nseq):
+            nm = "".join(c for c in rand_name(rng, used) if c not in " \t/")
+            names.append(nm or "r%d_%d" % (a, j))
+        body = "# STOCKHOLM 1.0\n#=GF ID ali%d\n" % a
+        if rng.random() < 0.3:
+            body += "#=GS %s DE some description\n#=GS %s AC ACC%d\n" % (names[0], names[0], a)
+        seqs = ["".join(rng.choice("ACGUacgu-.") if rng.random() < 0.9 else rng.choice("-.") for _ in range(alen)) for _ in range(nseq)]
+        blocks = [(0, alen)] if rng.random() < 0.6 or alen < 4 else [(0, alen // 2), (alen // 2, alen)]
+        has_ss = [rng.random() < 0.3 for _ in names]          # the same annotation lines in every block, in the same order
+        has_xx = [rng.random() < 0.2 for _ in names]
+        has_cons = rng.random() < 0.3
+        for lo, hi in blocks:
+            for j, (nm, sq_) in enumerate(zip(names, seqs)):
+                body += "%s %s\n" % (nm, sq_[lo:hi])
+                if has_ss[j]:
+                    body += "#=GR %s SS %s\n" % (nm, "." * (hi - lo))
+                if has_xx[j]:
+                    body += "#=GR %s XX %s\n" % (nm, "x" * (hi - lo))
+            if has_cons:
+                body += "#=GC SS_cons %s\n" % ("." * (hi - lo))
+            body += "\n"
+        body += "//\n"
+        out.append(body)
+        for nm, sq_ in zip(names, seqs):
+            rows.append((nm, "".join(c for c in sq_ if c not in "-_.~")))
+    return "".join(out).encode("latin-1"), rows
+
+
+def msaseq_case(rng, idx):
+    data, rows = gen_msa_as_seqs(rng)
+    ops = ["file ext=sto hex=" + hx(data)]
+    for s_ in range(rng.choice([1, 2])):
+        abc = rng.choice(["text", "text", "rna", "dna"])
+        ops.append("open fmt=%s abc=%s B=%d" % (rng.choice(["stockholm", "pfam", "unknown"]), abc, rng.choice([4096, 64, 7])))
+        call = rng.choice(["read", "readseq", "readinfo", "win", "block", "mixed"])
+        n = len(rows) + 1
+        if call == "win":
+            for nm, sq_ in rows:
+                W = rng.choice([1, 3, 10, 60, 5000, max(1, len(sq_))])
+                W = max(W, len(sq_) // 60 + 1)          # at most ~60 windows per sequence, always to the end of the sequence
+                C = rng.choice([0, 0, 2, 10])
+                ops += ["readwin C=%d W=%d" % (C, W)] * ((len(sq_) + W - 1) // W + 1)
+                # (no reverse-strand windows here: known finding C02:readwindow-msa:reverse-strand-coordinates)
+                ops.append("reuse")
+            ops.append("readwin C=0 W=10")
+        elif call == "block":
+            ops += ["readblock list=%d maxres=-1 maxseq=%d init=0 long=0 ctx=0" % (rng.choice([1, 2, 8]), rng.choice([-1, 1, 3]))] * n
+        elif call == "mixed":
+            ops += [rng.choice(["read", "readinfo", "readseq"]) for _ in range(n)]
+        else:
+            ops += [call] * n
+        ops.append("close")
+    return {"name": "msaseq%d" % idx, "ops": ops, "sticky": 1, "meta": {"msaseq": [(a, b) for a, b in rows]}}
+
+
+def monitor_msaseq(case, out):
+    """every sequence delivered from an alignment file is the corresponding row with the gap characters removed"""
+    from vlib.engine import Failure
+    rows = (case.get("meta") or {}).get("msaseq")
+    if not rows:
+        return None
+    for data, od, items in sessions(case, out):
+        abc = od.get("abc", "text")
+        idx = 0
+        for op, d, line in items:
+            if op not in ("read", "readseq", "readinfo"):
+                break
+            st = line.split()[0] if line else ""
+            if st == "eof":
+                if idx != len(rows):
+                    return Failure("monitor", "alignment file read as sequences ended after %d of %d sequences" % (idx, len(rows)))
+                continue
+            r = rec(line)
+            if st != "ok" or r is None or idx >= len(rows):
+                return Failure("monitor", "%s on a well-formed alignment file (sequence %d of %d) returned %r" % (op, idx, len(rows), line[:80]))
+            nm, seq = rows[idx]
+            if r["name"] != nm.encode():
+                return Failure("monitor", "sequence %d read from the alignment is named %r, the row is %r" % (idx, r["name"], nm))
+            if op != "readinfo":
+                if r["n"] != len(seq) or (abc == "text" and r["seq"] != seq.encode()):
+                    return Failure("monitor", "sequence %d (%s) read from the alignment has %d residues %r, the dealigned row has %d: %r" % (
+                        idx, nm, r["n"], (r["seq"] or b"")[:30], len(seq), seq[:30]))
+            idx += 1
+        if any(op == "readwin" for op, _, _ in items):
+            err, recon = monitor_windows(items, abc)
+            if err:
+                return Failure("monitor", "windows over an alignment file (abc=%s): %s" % (abc, err))
+            for i, (name, seq, L) in enumerate(recon):
+                # (an all-gap row comes back as an immediate EOD whose info record carries no name: the annotation is only copied with a window)
+                if i < len(rows) and ((name != rows[i][0].encode() and L > 0) or L != len(rows[i][1]) or (abc == "text" and seq != rows[i][1].encode())):
+                    return Failure("monitor", "windows over sequence %d of the alignment do not reassemble the dealigned row" % i)
     return None
